@@ -6,8 +6,8 @@ package main
 func init() {
 	property(&Property{
 		ID:          "C01",
-		Rules:       []string{"STOP-SET", "LITERAL-COMPARE", "OFFSET-BASE", "KEY-AGREE", "PATTERN-VERB", "VERB-KEY", "LEAF-EXHAUSTED", "VARS-ONLY", "PATH-NORMALISE", "PATH-SOURCE", "SEP-CHECK", "KIND-VALUE-AGREE", "KIND-EXHAUSTIVE", "MATCH-SOURCE", "LEX-EOF-ONLY", "POOL-UAP", "STORED-SLICE-REUSE"},
-		Decides:     "Decides the comparisons and tables every sound matcher must contain: literal edges are followed by the same key they were created with; a variable pattern's literal arm rejects on kind or text mismatch; '*' stops at '/' and ':' and '**' at ':' only; each HttpRule pattern case maps to the HTTP method of the same name and the leaf lookup is keyed by the request's verb; a method is returned only when nothing but the end marker is left; captured text is bound only to the fields the template names; capture lengths use the right base. Also: path-bound integer/float/enum text is converted with the field's own kind and width (the KIND rules). Also: the method returned by the matchers comes from the trie walk of this request (or a memo keyed by both path and verb), never from a value remembered under less. Also: the path lexer closes the token list only at the end of the input (no silent truncation at the token budget). Also: the token list the matcher walks is not memory of a pooled lexer that a deferred Put hands to the next request.",
+		Rules:       []string{"STOP-SET", "LITERAL-COMPARE", "OFFSET-BASE", "KEY-AGREE", "PATTERN-VERB", "VERB-KEY", "LEAF-EXHAUSTED", "VARS-ONLY", "PATH-NORMALISE", "PATH-SOURCE", "SEP-CHECK", "KIND-VALUE-AGREE", "KIND-EXHAUSTIVE", "MATCH-SOURCE", "LEX-EOF-ONLY", "POOL-UAP", "STORED-SLICE-REUSE", "CAPTURE-PAIRING", "SEL-COLLECT", "SEL-INSERT"},
+		Decides:     "Decides the comparisons and tables every sound matcher must contain: literal edges are followed by the same key they were created with; a variable pattern's literal arm rejects on kind or text mismatch; '*' stops at '/' and ':' and '**' at ':' only; each HttpRule pattern case maps to the HTTP method of the same name and the leaf lookup is keyed by the request's verb; a method is returned only when nothing but the end marker is left; captured text is bound only to the fields the template names; capture lengths use the right base. Also: path-bound integer/float/enum text is converted with the field's own kind and width (the KIND rules). Also: the method returned by the matchers comes from the trie walk of this request (or a memo keyed by both path and verb), never from a value remembered under less. Also: the path lexer closes the token list only at the end of the input (no silent truncation at the token budget). Also: the token list the matcher walks is not memory of a pooled lexer that a deferred Put hands to the next request. Also: service-config rules are bound only to methods their selector names (lookup descends component by component; insertion stores at the selected node).",
 		NotDecided:  "that a matching path is matched only by covering templates in general (lexer character classes, ':' handling, capture text equality, numeric conversion results, trailing-slash normalisation) - i.e. the behavioural statement itself.",
 		Assumptions: commonAssumptions,
 	})
@@ -20,105 +20,105 @@ func init() {
 	})
 	property(&Property{
 		ID:          "C03",
-		Rules:       []string{"KIND-EXHAUSTIVE", "KIND-VALUE-AGREE", "WKT-TABLE", "BYTES-ALPHABETS", "NAME-RESOLUTION", "FIELDPATH-SINGULAR", "DECODE-THEN-PARAMS", "DESC-ROLE", "DECOMP-AGREE", "B64-BUF", "QUOTE-ESCAPES", "POOL-ESCAPE", "FD-LOCALISER", "QUERY-EVERY-VALUE", "BODY-UNKNOWN-LENGTH", "GZIP-WHOLE-BODY"},
-		Decides:     "Decides that the per-kind conversion table is complete and type-correct against protoreflect's Kind/Value contract, that well-known types are listed and unmarshalled into their own type, that the bytes arm reaches all four base64 variants, that names resolve by JSON name then proto name, that field paths only walk singular message fields, that body/query/path resolution uses the request descriptor, that decompression and codec selection follow the request headers, and that parameters are applied after the body. Also: a base64 destination is sized by the encoding that decodes into it; URL text becomes a JSON string only through an escaping quoter. Also: the function that maps a stored field descriptor onto the handling backend's message goes by field number or name, never by declaration position; bytes handed to the handler are not left inside a pooled buffer. Also: every value of every query key becomes a parameter or an error (none is skipped). Also: a request of undeclared length (Content-Length -1) has its body decoded.",
+		Rules:       []string{"KIND-EXHAUSTIVE", "KIND-VALUE-AGREE", "WKT-TABLE", "BYTES-ALPHABETS", "NAME-RESOLUTION", "FIELDPATH-SINGULAR", "DECODE-THEN-PARAMS", "DESC-ROLE", "DECOMP-AGREE", "B64-BUF", "QUOTE-ESCAPES", "POOL-ESCAPE", "FD-LOCALISER", "QUERY-EVERY-VALUE", "BODY-UNKNOWN-LENGTH", "GZIP-WHOLE-BODY", "PATH-NORMALISE", "CAPTURE-PAIRING", "UNMARSHAL-RESETS"},
+		Decides:     "Decides that the per-kind conversion table is complete and type-correct against protoreflect's Kind/Value contract, that well-known types are listed and unmarshalled into their own type, that the bytes arm reaches all four base64 variants, that names resolve by JSON name then proto name, that field paths only walk singular message fields, that body/query/path resolution uses the request descriptor, that decompression and codec selection follow the request headers, and that parameters are applied after the body. Also: a base64 destination is sized by the encoding that decodes into it; URL text becomes a JSON string only through an escaping quoter. Also: the function that maps a stored field descriptor onto the handling backend's message goes by field number or name, never by declaration position; bytes handed to the handler are not left inside a pooled buffer. Also: every value of every query key becomes a parameter or an error (none is skipped). Also: a request of undeclared length (Content-Length -1) has its body decoded. Also: the request path reaches the matcher (and therefore the captured variable values) only slash-normalised, never cleaned of dot segments.",
 		NotDecided:  "that converted values equal the proto3 JSON reading (null, NaN, whitespace, base64 details), the round-trip law itself, codec behaviour.",
 		Assumptions: commonAssumptions,
 	})
 	property(&Property{
 		ID:          "C04",
-		Rules:       []string{"DESC-ROLE", "FIELDPATH-SINGULAR", "RESP-APPLIED", "CT-AGREE", "CE-AGREE", "OFFERS-AGREE", "MD-RESERVED-TABLE", "POOL-FOREIGN", "NEGOTIATE-ADMITS", "MD-GATE-OUT", "OWS-BEFORE-SEP", "RESP-WALK-TOTAL"},
-		Decides:     "Decides that the header naming the body's type/encoding and the codec/compressor that produced the body are chosen by the same value on every path, that response_body is resolved with its own selector against the reply type and applied on send, that offers come from the very codec map that is indexed, and that handler metadata cannot override Content-Type/Content-Encoding. Also: content negotiation selects an offer only where the Accept entry admits it, on every path; the reserved test sees the key in the table's case. Also: the Accept parser tests for ';', ',' and 'q=' on input whose optional whitespace was skipped. Also: the compressor that wraps the reply is the one registered under the announced Content-Encoding and no other (a variable shared with the request side is refused). Also: the response_body selector is walked to its end for every reply (no stop at an unset field).",
+		Rules:       []string{"DESC-ROLE", "FIELDPATH-SINGULAR", "RESP-APPLIED", "CT-AGREE", "CE-AGREE", "OFFERS-AGREE", "MD-RESERVED-TABLE", "POOL-FOREIGN", "NEGOTIATE-ADMITS", "MD-GATE-OUT", "OWS-BEFORE-SEP", "RESP-WALK-TOTAL", "SEND-FRAME-FLAG", "SCAN-PROGRESS"},
+		Decides:     "Decides that the header naming the body's type/encoding and the codec/compressor that produced the body are chosen by the same value on every path, that response_body is resolved with its own selector against the reply type and applied on send, that offers come from the very codec map that is indexed, and that handler metadata cannot override Content-Type/Content-Encoding. Also: content negotiation selects an offer only where the Accept entry admits it, on every path; the reserved test sees the key in the table's case. Also: the Accept parser tests for ';', ',' and 'q=' on input whose optional whitespace was skipped. Also: the compressor that wraps the reply is the one registered under the announced Content-Encoding and no other (a variable shared with the request side is refused). Also: the response_body selector is walked to its end for every reply (no stop at an unset field). Also: the compressed-flag byte of every gRPC frame sent agrees with what was done to the payload (set after the last reallocation of the frame buffer, 1 exactly on the paths through the compressor).",
 		NotDecided:  "negotiation results for concrete Accept strings; marshalled bytes; whether compression is ever offered.",
 		Assumptions: commonAssumptions,
 	})
 	property(&Property{
 		ID:          "C05",
-		Rules:       []string{"STATUS-TABLE", "TABLE-GUARD", "TWIRP-TABLE", "ENCODER-CLOSE", "TAIL-FLUSH", "PANIC-REACH-SERVE", "ERR-SAME-STATUS", "GRPC-TRAILER-VALUES", "ESCAPE-SET", "CODEC-LOOKUP-TOTAL", "POOL-RESET", "FWD-ERR-IDENTITY"},
-		Decides:     "Decides the table-shaped and pairing-shaped parts of status fidelity: status tables equal the documented mapping and their guards are exact; the Twirp name table equals the Twirp spec; the base64 stream of gRPC-web-text is terminated; the grpc-message encoder writes its tail; the error encoders contain no reachable panic; code, message and details come from one status value derived from the handler's error and reach the gRPC trailers through the right encoders. Also: a pooled buffer that becomes the gRPC-web trailer frame is Reset after Get. Also: the proxy's error filter sets aside only nil / io.EOF / context.Canceled by identity (a Canceled *status* of the backend is relayed).",
+		Rules:       []string{"STATUS-TABLE", "TABLE-GUARD", "TWIRP-TABLE", "ENCODER-CLOSE", "TAIL-FLUSH", "PANIC-REACH-SERVE", "ERR-SAME-STATUS", "GRPC-TRAILER-VALUES", "ESCAPE-SET", "CODEC-LOOKUP-TOTAL", "POOL-RESET", "FWD-ERR-IDENTITY", "STATUS-BLOCK"},
+		Decides:     "Decides the table-shaped and pairing-shaped parts of status fidelity: status tables equal the documented mapping and their guards are exact; the Twirp name table equals the Twirp spec; the base64 stream of gRPC-web-text is terminated; the grpc-message encoder writes its tail; the error encoders contain no reachable panic; code, message and details come from one status value derived from the handler's error and reach the gRPC trailers through the right encoders. Also: a pooled buffer that becomes the gRPC-web trailer frame is Reset after Get. Also: the proxy's error filter sets aside only nil / io.EOF / context.Canceled by identity (a Canceled *status* of the backend is relayed). Also: the gRPC status is written after the headers were flushed on every path, or else nothing is placed in a later block than the status.",
 		NotDecided:  "encodeGrpcMessage's per-character output beyond 'no input byte is skipped', WebSocket close-frame payload limits, equality of details.",
 		Assumptions: commonAssumptions,
 	})
 	property(&Property{
 		ID:          "C06",
-		Rules:       []string{"ENCODER-CLOSE", "CARRY-OVER", "FRAME-AGREE", "READFULL-EOF", "FWD-CLOSESEND", "COMPRESS-FLAG", "READ-FAIL-NONNIL", "CLOSE-ONCE", "JSON-FRAME-TABLE", "WS-DATA-KINDS", "CLEAN-END-EOF-ONLY", "READ-DATA-FIRST", "CARRY-COUNTED", "POOL-FOREIGN"},
-		Decides:     "Decides only three structural necessary conditions of 'no lost byte': the gRPC-web-text byte stream is terminated; bytes a stream codec read past the current message are saved on every path and handed to the next read; the gRPC frame writer and reader (and the gRPC-web trailer frame) agree on header length, offsets and byte order. Also: a proxied half-close is sent only after a clean inbound end; a gRPC message is decompressed iff its own flag byte is set; a failed transport read never yields a nil error. Also: the compressing writer is closed once per message (a second Close returns it to its pool twice and two streams share it). Also: the JSON stream codec's framing decisions - where a message ends - follow JSON's lexical structure (JSON-FRAME-TABLE). Also: the WebSocket stream reads text and binary data frames alike; a read error is taken for a clean end only when it is io.EOF itself.",
+		Rules:       []string{"ENCODER-CLOSE", "CARRY-OVER", "FRAME-AGREE", "READFULL-EOF", "FWD-CLOSESEND", "COMPRESS-FLAG", "READ-FAIL-NONNIL", "CLOSE-ONCE", "JSON-FRAME-TABLE", "WS-DATA-KINDS", "CLEAN-END-EOF-ONLY", "READ-DATA-FIRST", "CARRY-COUNTED", "POOL-FOREIGN", "SEND-FRAME-FLAG", "UNMARSHAL-RESETS"},
+		Decides:     "Decides only three structural necessary conditions of 'no lost byte': the gRPC-web-text byte stream is terminated; bytes a stream codec read past the current message are saved on every path and handed to the next read; the gRPC frame writer and reader (and the gRPC-web trailer frame) agree on header length, offsets and byte order. Also: a proxied half-close is sent only after a clean inbound end; a gRPC message is decompressed iff its own flag byte is set; a failed transport read never yields a nil error. Also: the compressing writer is closed once per message (a second Close returns it to its pool twice and two streams share it). Also: the JSON stream codec's framing decisions - where a message ends - follow JSON's lexical structure (JSON-FRAME-TABLE). Also: the WebSocket stream reads text and binary data frames alike; a read error is taken for a clean end only when it is io.EOF itself. Also: the proto codec never decodes with the Merge option (no merged messages on a reused destination).",
 		NotDecided:  "and this is most of the property: sequence equality, fragmentation invariance, truncation behaviour, phantom/dropped messages at EOF, WebSocket end-of-stream.",
 		Assumptions: commonAssumptions,
 	})
 	property(&Property{
 		ID:          "C07",
-		Rules:       []string{"PARAM-ORDER", "LAST-WRITER", "DECODE-THEN-PARAMS", "FD-LOCALISER", "PARAM-INDEPENDENT"},
-		Decides:     "Decides the precedence between the three input channels for singular fields, which is entirely structural: params.set is last-writer-wins, so the property holds iff path captures are applied after query parameters and after the body; every stream receives the composed list. Also: a path-bound value is written into the field with the stored descriptor's number/name on whichever backend handles the call (FD-LOCALISER). Also: every parameter is written along its own field path from the request message (nothing is carried over from the previous parameter).",
+		Rules:       []string{"PARAM-ORDER", "LAST-WRITER", "DECODE-THEN-PARAMS", "FD-LOCALISER", "PARAM-INDEPENDENT", "CAPTURE-PAIRING"},
+		Decides:     "Decides the precedence between the three input channels for singular fields, which is entirely structural: params.set is last-writer-wins, so the property holds iff path captures are applied after query parameters and after the body; every stream receives the composed list. Also: a path-bound value is written into the field with the stored descriptor's number/name on whichever backend handles the call (FD-LOCALISER). Also: every parameter is written along its own field path from the request message (nothing is carried over from the previous parameter). Also: captures and field paths are counted one per variable node on both sides (addRule and search), so a capture cannot be dropped or shifted when rules share a node.",
 		NotDecided:  "repeated path-bound fields (both channels append); protoreflect's Set itself.",
 		Assumptions: commonAssumptions,
 	})
 	property(&Property{
 		ID:          "C08",
-		Rules:       []string{"LIMIT-SRC", "LIMIT-STRICT", "LIMIT-IMPL", "LIMIT-DEFAULTS", "SIGNCONV", "OPTS-RO", "COMPRESS-FLAG", "POOL-RESET"},
-		Decides:     "Decides that every way request bytes enter memory on a request-reachable path is bounded by the configured receive limit before use on every protocol (including after decompression and on WebSocket), that refusing comparisons are strict (a message exactly at the limit is accepted), that every in-repo stream codec honours its limit, that wire lengths cannot wrap through a sign-changing conversion, and that the limit in force is the configured one. Also: a LimitReader in front of a length check lets limit+1 bytes through; the gRPC send limit is compared with the encoded, not the compressed size. Also: a StreamCodec reports no length above the limit next to an error either. Also: stale bytes of a pooled (de)compression buffer cannot count against the limit (Reset after Get, or Reset before every Put).",
+		Rules:       []string{"LIMIT-SRC", "LIMIT-STRICT", "LIMIT-IMPL", "LIMIT-DEFAULTS", "SIGNCONV", "OPTS-RO", "COMPRESS-FLAG", "POOL-RESET", "LIMIT-RETURN-BOUND"},
+		Decides:     "Decides that every way request bytes enter memory on a request-reachable path is bounded by the configured receive limit before use on every protocol (including after decompression and on WebSocket), that refusing comparisons are strict (a message exactly at the limit is accepted), that every in-repo stream codec honours its limit, that wire lengths cannot wrap through a sign-changing conversion, and that the limit in force is the configured one. Also: a LimitReader in front of a length check lets limit+1 bytes through; the gRPC send limit is compared with the encoded, not the compressed size. Also: a StreamCodec reports no length above the limit next to an error either. Also: stale bytes of a pooled (de)compression buffer cannot count against the limit (Reset after Get, or Reset before every Put). Also: the length an in-repo ReadNext returns is bounded by the limit as a value (the compared counter is not advanced between the comparison and the return).",
 		NotDecided:  "numeric boundary behaviour of library readers, memory use, user-supplied StreamCodecs.",
 		Assumptions: commonAssumptions,
 	})
 	property(&Property{
 		ID:          "C09",
-		Rules:       []string{"PANIC-REACH-SERVE", "COMMAOK-SERVE", "ASSERT-CHECKED", "TABLE-GUARD", "SIGNCONV", "OFFSET-BASE", "FIELDPATH-SINGULAR", "TOKEN-KINDS", "NIL-MAP-WRITE", "STATS-PURE", "SLICE-CAP", "NILABLE-FIELD", "FD-LOCAL", "CODEC-LOOKUP-TOTAL", "NIL-STATE", "B64-BUF", "SUB-LOW", "PICK-CURRENT", "HANDLERS-PRESENCE", "JOIN-EXIT", "LOOP-PROGRESS", "SCAN-INDEX-GUARDED"},
-		Decides:     "Decides the absence, on every call-graph path from the request entry points, of the enumerated crash constructs: explicit panic, use of a comma-ok result where ok may be false, unjustified single-result type assertions, off-by-one table guards, sign-changing conversions of wire lengths, index-relative-to-wrong-base arithmetic, field paths walking through repeated/map/scalar fields, pattern tokens the matcher panics on, writes through nil maps, stats-only slicing. Also: the state snapshot (nil before the first registration) is only used nil-safely; x[a-b:] needs a >= b; base64 destinations are sized by the decoding encoding. Also: the handler pick indexes a non-empty list (no rand.Intn(0)); readers of the handler table do not take a present-but-empty entry for a registered method. Also: serveGRPC's join of the stream's goroutines cannot wait on a body it has not closed; growcap's fractional loop cannot be entered where its increment is 0.",
+		Rules:       []string{"PANIC-REACH-SERVE", "COMMAOK-SERVE", "ASSERT-CHECKED", "TABLE-GUARD", "SIGNCONV", "OFFSET-BASE", "FIELDPATH-SINGULAR", "TOKEN-KINDS", "NIL-MAP-WRITE", "STATS-PURE", "SLICE-CAP", "NILABLE-FIELD", "FD-LOCAL", "CODEC-LOOKUP-TOTAL", "NIL-STATE", "B64-BUF", "SUB-LOW", "PICK-CURRENT", "HANDLERS-PRESENCE", "JOIN-EXIT", "LOOP-PROGRESS", "SCAN-INDEX-GUARDED", "SCAN-PROGRESS"},
+		Decides:     "Decides the absence, on every call-graph path from the request entry points, of the enumerated crash constructs: explicit panic, use of a comma-ok result where ok may be false, unjustified single-result type assertions, off-by-one table guards, sign-changing conversions of wire lengths, index-relative-to-wrong-base arithmetic, field paths walking through repeated/map/scalar fields, pattern tokens the matcher panics on, writes through nil maps, stats-only slicing. Also: the state snapshot (nil before the first registration) is only used nil-safely; x[a-b:] needs a >= b; base64 destinations are sized by the decoding encoding. Also: the handler pick indexes a non-empty list (no rand.Intn(0)); readers of the handler table do not take a present-but-empty entry for a registered method. Also: serveGRPC's join of the stream's goroutines cannot wait on a body it has not closed; growcap's fractional loop cannot be entered where its increment is 0. Also: input-consuming loops on request paths shorten their input strictly on every way round.",
 		NotDecided:  "general slice/index arithmetic, nil dereferences beyond the comma-ok class, termination, resource exhaustion, panics inside dependencies beyond the encoded contracts.",
 		Assumptions: commonAssumptions,
 	})
 	property(&Property{
 		ID:          "C10",
-		Rules:       []string{"FWD-MD", "FWD-CLOSESEND", "FWD-PAIR", "FWD-ERR-IDENTITY", "FWD-ERR-PROMPT", "DESC-ROLE", "ROLE-AGREE", "GO-SHARED", "IC-ONCE", "ESCAPE-SET", "TAIL-FLUSH", "FWD-EOF-FILTERED", "MD-GATE-IN", "CALL-FRESH-MESSAGE"},
-		Decides:     "Decides the forwarder's plumbing: the backend call carries the inbound metadata, method name and streaming shape; client half-close is forwarded; each inbound message is forwarded as received into a fresh message of the request type and replies are built from the reply type; backend errors are returned unmodified; the pump goroutine shares nothing unsynchronised and never touches the response side. Also: the stream-error filter sets aside only nil/io.EOF/context.Canceled; grpc-message escapes are % and two hex digits. Also: io.EOF made by a pump loop (the peer finished) is never returned to the front client as an error. Also: the incoming metadata that is forwarded withholds only an enumerated list of protocol keys (no prefix test). Also: io.EOF from any SendMsg on the backend stream is never returned to the front client (the status is RecvMsg's to report; found D43).",
+		Rules:       []string{"FWD-MD", "FWD-CLOSESEND", "FWD-PAIR", "FWD-ERR-IDENTITY", "FWD-ERR-PROMPT", "DESC-ROLE", "ROLE-AGREE", "GO-SHARED", "IC-ONCE", "ESCAPE-SET", "TAIL-FLUSH", "FWD-EOF-FILTERED", "MD-GATE-IN", "CALL-FRESH-MESSAGE", "SENDRECV-DISJOINT"},
+		Decides:     "Decides the forwarder's plumbing: the backend call carries the inbound metadata, method name and streaming shape; client half-close is forwarded; each inbound message is forwarded as received into a fresh message of the request type and replies are built from the reply type; backend errors are returned unmodified; the pump goroutine shares nothing unsynchronised and never touches the response side. Also: the stream-error filter sets aside only nil/io.EOF/context.Canceled; grpc-message escapes are % and two hex digits. Also: io.EOF made by a pump loop (the peer finished) is never returned to the front client as an error. Also: the incoming metadata that is forwarded withholds only an enumerated list of protocol keys (no prefix test). Also: io.EOF from any SendMsg on the backend stream is never returned to the front client (the status is RecvMsg's to report; found D43). Also: the send and receive halves of a stream share no mutable field (the forwarder runs them concurrently).",
 		NotDecided:  "observational equivalence of transcripts; reflection-based descriptor discovery; response header metadata.",
 		Assumptions: commonAssumptions,
 	})
 	property(&Property{
 		ID:          "C11",
-		Rules:       []string{"WRITER-PUBLISHES", "ADD-REMOVE-SYMMETRY", "REMOVE-FILTER", "PICK-CURRENT", "COW-6", "STORED-SLICE-REUSE", "FD-LOCAL", "DELRULE-GUARD", "NIL-STATE", "DESC-BY-NAME", "COW-2", "HANDLERS-PRESENCE", "CONN-OWNS-ALL"},
-		Decides:     "Decides that every operation that changes the registration set publishes it, that removal empties what registration fills and keeps exactly the handlers of other connections, that dropping an unknown connection changes nothing, and that dispatch reads one current snapshot and answers Unimplemented exactly when no handler is left. Also: DropConn/registration never touch a nil snapshot; 'same method' is decided on full names, never on descriptor identity. Also: writers load the snapshot under the lock (no lost registration or drop); presence of a key in the handler table is trusted only if removal deletes emptied entries. Also: a connection leaves state.conns only through removeHandler, together with its handlers. Also: the handler list recorded for a connection covers every handler installed for it (never re-made inside the loops).",
+		Rules:       []string{"WRITER-PUBLISHES", "ADD-REMOVE-SYMMETRY", "REMOVE-FILTER", "PICK-CURRENT", "COW-6", "STORED-SLICE-REUSE", "FD-LOCAL", "DELRULE-GUARD", "NIL-STATE", "DESC-BY-NAME", "COW-2", "HANDLERS-PRESENCE", "CONN-OWNS-ALL", "COW-5", "FDHASH-STREAMED"},
+		Decides:     "Decides that every operation that changes the registration set publishes it, that removal empties what registration fills and keeps exactly the handlers of other connections, that dropping an unknown connection changes nothing, and that dispatch reads one current snapshot and answers Unimplemented exactly when no handler is left. Also: DropConn/registration never touch a nil snapshot; 'same method' is decided on full names, never on descriptor identity. Also: writers load the snapshot under the lock (no lost registration or drop); presence of a key in the handler table is trusted only if removal deletes emptied entries. Also: a connection leaves state.conns only through removeHandler, together with its handlers. Also: the handler list recorded for a connection covers every handler installed for it (never re-made inside the loops). Also: the clone a writer works on shares no mutable routing memory with the published snapshot (struct copies included), so a registration that fails half-way leaves the live routes as they were. Also: the digest that decides 'connection unchanged' is one streaming hash over all received file descriptors.",
 		NotDecided:  "behaviour over histories (stale routes answering Unimplemented, which backend answers).",
 		Assumptions: commonAssumptions,
 	})
 	property(&Property{
 		ID:          "C12",
-		Rules:       []string{"COW-1", "COW-2", "COW-3", "COW-4", "COW-5", "COW-6", "COW-7", "OPTS-RO", "NO-UNSAFE"},
+		Rules:       []string{"COW-1", "COW-2", "COW-3", "COW-4", "COW-5", "COW-6", "COW-7", "OPTS-RO", "NO-UNSAFE", "STATE-SLICE-APPEND"},
 		Decides:     "Decides the copy-on-write discipline completely: published snapshots are never written (readers are effect-free, clones share nothing that is mutated in place), writers are serialised by Mux.mu, publication is one atomic store of a private clone of the current snapshot, each request resolves against one snapshot, failures publish nothing. Under Go's memory model this implies no torn or in-progress routing state is observable and no data race on routing state exists, for every interleaving. Also: clone reads every field of a non-nil receiver on every path to a return.",
 		NotDecided:  "liveness ('requests keep succeeding'), races outside routing state (C13).",
 		Assumptions: commonAssumptions,
 	})
 	property(&Property{
 		ID:          "C13",
-		Rules:       []string{"POOL-TYPE", "POOL-RESET", "POOL-ESCAPE", "POOL-UAP", "POOL-ONCE", "OPTS-RO", "GO-SHARED", "SENDRECV-DISJOINT", "PER-REQUEST-FRESH", "POOL-FOREIGN", "CLOSE-ONCE", "MD-OWNED", "POOL-SELF-TERMINAL", "JOIN-EXIT", "CALL-FRESH-MESSAGE"},
-		Decides:     "Decides the ownership discipline of everything shared between requests: pooled objects are typed, reset before use, never escape into messages/fields/goroutines, are not used after being returned and are returned at most once; options are read-only on serving paths; what a spawned pump shares is read only after its join and it never touches the response side; the send and receive halves of a stream touch disjoint state; stream objects and lexers are per-request allocations. Also: a stream's header/trailer metadata are its own maps, not the handler's. Also: a reader that returns itself to its pool on io.EOF reports that EOF (a hidden EOF makes the caller read a pooled object and pool it twice). Also: serveGRPC joins in-flight stream calls on every way out (deferred Wait); memory of a pooled object is not returned under a deferred Put.",
+		Rules:       []string{"POOL-TYPE", "POOL-RESET", "POOL-ESCAPE", "POOL-UAP", "POOL-ONCE", "OPTS-RO", "GO-SHARED", "SENDRECV-DISJOINT", "PER-REQUEST-FRESH", "POOL-FOREIGN", "CLOSE-ONCE", "MD-OWNED", "POOL-SELF-TERMINAL", "JOIN-EXIT", "CALL-FRESH-MESSAGE", "STATE-SLICE-APPEND"},
+		Decides:     "Decides the ownership discipline of everything shared between requests: pooled objects are typed, reset before use, never escape into messages/fields/goroutines, are not used after being returned and are returned at most once; options are read-only on serving paths; what a spawned pump shares is read only after its join and it never touches the response side; the send and receive halves of a stream touch disjoint state; stream objects and lexers are per-request allocations. Also: a stream's header/trailer metadata are its own maps, not the handler's. Also: a reader that returns itself to its pool on io.EOF reports that EOF (a hidden EOF makes the caller read a pooled object and pool it twice). Also: serveGRPC joins in-flight stream calls on every way out (deferred Wait); memory of a pooled object is not returned under a deferred Put. Also: request code never appends into a slice that comes out of the routing state (shared between all requests of a route).",
 		NotDecided:  "absence of races in general (no lockset analysis of stream fields across handler-spawned goroutines), byte-level isolation, user codecs that alias their input.",
 		Assumptions: commonAssumptions,
 	})
 	property(&Property{
 		ID:          "C14",
-		Rules:       []string{"MD-GATE-OUT", "MD-GATE-IN", "MD-RESERVED-TABLE", "BIN-PADDING", "IDENT-BRANCH", "TRAILER-PHASE", "STS-ROUTING", "WEB-TRAILER-FRAME", "MD-OWNED", "SENDHEADER-WRITES"},
-		Decides:     "Decides that every conversion between headers and metadata, in either direction, filters reserved keys and transforms '-bin' values, lower-cases keys and keeps all values; that the reserved set covers every key the transport itself writes on a response; that both base64 padding variants are accepted; that trailer-phase header writes can reach the wire; and that the ServerTransportStream wrapper routes header/trailer calls to the stream. Also: accumulated header/trailer metadata is never the handler's own map; the reserved test sees the key in the table's case. Also: header/trailer metadata given in successive calls accumulates per key (Join/append, never MD.Set); the reserved request keys are an enumerated list. Also: SendHeader itself passes the header metadata to the outgoing gate.",
+		Rules:       []string{"MD-GATE-OUT", "MD-GATE-IN", "MD-RESERVED-TABLE", "BIN-PADDING", "IDENT-BRANCH", "TRAILER-PHASE", "STS-ROUTING", "WEB-TRAILER-FRAME", "MD-OWNED", "SENDHEADER-WRITES", "STATUS-BLOCK"},
+		Decides:     "Decides that every conversion between headers and metadata, in either direction, filters reserved keys and transforms '-bin' values, lower-cases keys and keeps all values; that the reserved set covers every key the transport itself writes on a response; that both base64 padding variants are accepted; that trailer-phase header writes can reach the wire; and that the ServerTransportStream wrapper routes header/trailer calls to the stream. Also: accumulated header/trailer metadata is never the handler's own map; the reserved test sees the key in the table's case. Also: header/trailer metadata given in successive calls accumulates per key (Join/append, never MD.Set); the reserved request keys are an enumerated list. Also: SendHeader itself passes the header metadata to the outgoing gate. Also: header metadata is never written into a Trailers-Only block.",
 		NotDecided:  "byte-exactness for arbitrary values, HTTP/2 header canonicalisation, WebSocket metadata.",
 		Assumptions: commonAssumptions,
 	})
 	property(&Property{
 		ID:          "C15",
-		Rules:       []string{"CTX-ANCESTRY", "TIMEOUT-APPLIED", "TIMEOUT-REFUSED", "UNIT-TABLE", "TIMEOUT-DIGITS", "TIMEOUT-CLAMP", "READ-FAIL-NONNIL", "CLEAN-END-EOF-ONLY", "DONE-BEFORE-WRITE"},
-		Decides:     "Decides that the handler's context always descends from the request's context through context-deriving calls only, that a present grpc-timeout is decoded with the spec's unit table and length bounds and installed with context.WithTimeout, and that a malformed one is refused before the handler can run. Also: the decoded timeout is installed on every path to the handler (a zero timeout included); a failed frame read never returns a possibly-nil error. Also: a body cut short (io.ErrUnexpectedEOF) is never presented to the handler as a clean end of stream.",
+		Rules:       []string{"CTX-ANCESTRY", "TIMEOUT-APPLIED", "TIMEOUT-REFUSED", "UNIT-TABLE", "TIMEOUT-DIGITS", "TIMEOUT-CLAMP", "READ-FAIL-NONNIL", "CLEAN-END-EOF-ONLY", "DONE-BEFORE-WRITE", "NO-FULL-DUPLEX"},
+		Decides:     "Decides that the handler's context always descends from the request's context through context-deriving calls only, that a present grpc-timeout is decoded with the spec's unit table and length bounds and installed with context.WithTimeout, and that a malformed one is refused before the handler can run. Also: the decoded timeout is installed on every path to the handler (a zero timeout included); a failed frame read never returns a possibly-nil error. Also: a body cut short (io.ErrUnexpectedEOF) is never presented to the handler as a clean end of stream. Also: the connection is never switched to HTTP/1 full duplex (net/http's disconnect detection, and with it cancellation of the handler's context, depends on it).",
 		NotDecided:  "promptness; that a handler blocked inside r.Body.Read is released (net/http behaviour); sign/overflow handling of the digits.",
 		Assumptions: commonAssumptions,
 	})
 	property(&Property{
 		ID:          "C16",
-		Rules:       []string{"PANIC-REACH-REG", "COMMAOK-REG", "TOKEN-KINDS", "COW-7", "COW-3", "COW-5", "SLOT-CHECK", "FIELDPATH-SINGULAR", "ADDITIONAL-BINDINGS", "NIL-STATE", "DESC-BY-NAME", "STORED-SLICE-REUSE", "TOKEN-WIDTH", "BACKTRACK", "LITERAL-FIRST", "TOKEN-LITERAL-TEXT"},
-		Decides:     "Decides the 'rejects ... with an error (never a panic) and leaves previously registered routes intact' half: no panic or unchecked comma-ok use is reachable from the registration roots, pattern tokens are validated, a failed registration publishes nothing and works on a private clone, a binding slot is written only after the conflict check, body/response_body selectors must name singular message fields, nested additional bindings are rejected before recursion. Also: registration on an empty Mux never dereferences the nil snapshot; re-registration of the same method from another descriptor instance is recognised by name. Also: a token or key slice kept by the trie (addVariable) is not re-used as an append buffer for the next variable of the template. Also: fixed-text tokens of the template lexer are exactly as wide as their text ('***' is not '**'). Also: the matcher shape rules that make every instance of an accepted template route (BACKTRACK, LITERAL-FIRST).",
+		Rules:       []string{"PANIC-REACH-REG", "COMMAOK-REG", "TOKEN-KINDS", "COW-7", "COW-3", "COW-5", "SLOT-CHECK", "FIELDPATH-SINGULAR", "ADDITIONAL-BINDINGS", "NIL-STATE", "DESC-BY-NAME", "STORED-SLICE-REUSE", "TOKEN-WIDTH", "BACKTRACK", "LITERAL-FIRST", "TOKEN-LITERAL-TEXT", "COW-2"},
+		Decides:     "Decides the 'rejects ... with an error (never a panic) and leaves previously registered routes intact' half: no panic or unchecked comma-ok use is reachable from the registration roots, pattern tokens are validated, a failed registration publishes nothing and works on a private clone, a binding slot is written only after the conflict check, body/response_body selectors must name singular message fields, nested additional bindings are rejected before recursion. Also: registration on an empty Mux never dereferences the nil snapshot; re-registration of the same method from another descriptor instance is recognised by name. Also: a token or key slice kept by the trie (addVariable) is not re-used as an append buffer for the next variable of the template. Also: fixed-text tokens of the template lexer are exactly as wide as their text ('***' is not '**'). Also: the matcher shape rules that make every instance of an accepted template route (BACKTRACK, LITERAL-FIRST). Also: every writer holds Mux.mu from its snapshot load to its publication, so an accepted registration is not overwritten by a concurrent one.",
 		NotDecided:  "the 'accepts every well-formed template' half (grammar conformance is value-level: e.g. one-letter literals are rejected today).",
 		Assumptions: commonAssumptions,
 	})
 	property(&Property{
 		ID:          "C17",
-		Rules:       []string{"LIMIT-IMPL", "LIMIT-STRICT", "SIGNCONV", "COMMAOK-SERVE", "READFULL-EOF", "SLICE-CAP", "READ-FAIL-NONNIL", "JSON-FRAME-TABLE", "LOOP-PROGRESS", "SCAN-INDEX-GUARDED", "READ-DATA-FIRST", "CARRY-COUNTED"},
+		Rules:       []string{"LIMIT-IMPL", "LIMIT-STRICT", "SIGNCONV", "COMMAOK-SERVE", "READFULL-EOF", "SLICE-CAP", "READ-FAIL-NONNIL", "JSON-FRAME-TABLE", "LOOP-PROGRESS", "SCAN-INDEX-GUARDED", "READ-DATA-FIRST", "CARRY-COUNTED", "LIMIT-RETURN-BOUND"},
 		Decides:     "Decides the limit-safe half: every in-repo ReadNext compares against its limit before it can return a message, strictly, and in a domain where the decoded length cannot wrap. Also: a failed transport read in RecvMsg returns a certainly non-nil error. Also: the JSON codec's scanner, as a transition table read off its loop body, agrees with JSON's lexical structure on every transition up to brace depth 4 (string start/end, backslash escapes, braces inside strings, message end exactly at the closing brace of depth 0, refusal of a surplus closing brace) and depends on nothing but its state and the current byte. Also: growcap's x += x/4 loop is entered only with x >= 4.",
 		NotDecided:  "invariance under where the reader splits the bytes (refill boundaries, carry-over exactness; the table rule assumes the current byte is buffered), the proto codec's varint handling beyond the limit/width checks, a JSON scanner that consumes more than one byte per iteration (reported undecided).",
 		Assumptions: commonAssumptions,
